@@ -2,6 +2,7 @@ package types
 
 import (
 	"encoding/binary"
+	"github.com/rigochain/rigo-go/libs/verifhook"
 	"github.com/tendermint/tendermint/libs/json"
 	tmdb "github.com/tendermint/tm-db"
 	"sync"
@@ -137,6 +138,7 @@ func (stdb *MetaDB) put(k string, v []byte) error {
 	if err := stdb.db.SetSync([]byte(k), v); err != nil {
 		return err
 	}
+	verifhook.DurableWritten("meta:" + k)
 	stdb.putCache(k, v)
 	return nil
 }
